@@ -625,9 +625,9 @@ Qed.
 
 (* ------------------------------------------------------------------ witnesses (the pinned generation) *)
 
-Definition s_v4 : sess := mkS true [(1, 1)] [].
+Definition s_v4 : sess := mkS true [(1, 1)] [] [].
 Definition no_opq : Z -> list Z -> vres := fun _ _ => VValueError.
-Definition rs_of (s : sess) : rsess := mkRS (s_asn4 s) (s_fams s) (s_addpath s).
+Definition rs_of (s : sess) : rsess := mkRS (s_asn4 s) (s_fams s) (s_addpath s) (s_extnh s).
 
 (* ORIGIN igp, AS_PATH ( 65001 ), NEXT_HOP 10.0.0.1 *)
 Definition base_attrs : list Z := [64;1;1;0; 64;2;6;2;1;0;0;253;233; 64;3;4;10;0;0;1].
@@ -690,8 +690,8 @@ Proof. eexists. repeat split; try (vm_compute; reflexivity). vm_compute. discrim
 (* non-vacuity for the End-of-RIB statements: ipv6 unicast as an MP_UNREACH_NLRI with no route, written
    without the extended-length bit (10 bytes: the third recognition path) *)
 Lemma eor_third_path :
-  dec_update no_opq (mkS true [(1,1);(2,1)] []) [0;0;0;6;128;15;3;0;2;1] = EndOfRib 2 1
-  /\ dec_update no_opq (mkS true [(1,1);(2,1)] []) [0;0;0;3;128;99;0] = EndOfRib 1 1.
+  dec_update no_opq (mkS true [(1,1);(2,1)] [] []) [0;0;0;6;128;15;3;0;2;1] = EndOfRib 2 1
+  /\ dec_update no_opq (mkS true [(1,1);(2,1)] [] []) [0;0;0;3;128;99;0] = EndOfRib 1 1.
 Proof. split; vm_compute; reflexivity. Qed.
 
 
